@@ -147,8 +147,13 @@ EvSnpAlign(e) ==
               /\ (pre => e.ok /\ SnpColumnsOK(e.names, e.seqs, c.names, c.alleles)),
        nf |-> Same]
 
+\* C10: a command run on the file that went through the history and on a FRESH file with the same
+\* logical content (imported just before) must print the same
+EvTwin(e) == [ok |-> e.same, nf |-> Same]
+
 Eval(e) ==
    CASE e.ev = "build" -> EvBuild(e)
+     [] e.ev = "twin" -> EvTwin(e)
      [] e.ev = "snpalign" -> EvSnpAlign(e)
      [] e.ev = "load" -> EvLoad(e)
      [] e.ev = "import" -> EvImport(e)
